@@ -408,19 +408,23 @@ class ShouldIgnore:
         return inline_ignored(violation.rule_id, violation.line, context.file_content)
 
 
-def py_reported(lit, file_path, content, allowed, max_small):
+@opaque
+def py_reported(lit: PyLitT, file_path: OptPath, content: Opt(Str), allowed: SeqOf(Int), max_small: Int) -> Bool:
+    """A collected literal (node, parent, value, line) is reported: flagged and not suppressed by a directive."""
     return py_flag(lit[2], lit[1], file_path, allowed, max_small) and not inline_ignored(RULE_ID, lit[3], content)
 
 
-def py_violation(rule_id, lit, file_path):
-    return magic_violation(rule_id, file_path, lit[3], lit[0].col_offset, lit[2], py_suggestion(lit[2]))
+@opaque
+def py_violation(lit: PyLitT, file_path: OptPath) -> ViolationT:
+    return magic_violation(RULE_ID, file_path, lit[3], lit[0].col_offset, lit[2], py_suggestion(lit[2]))
 
 
 def wf_rule(self):
     return self._violation_builder.rule_id == RULE_ID
 
 
-def wf_py_lit(lit):
+@opaque
+def wf_py_lit(lit: PyLitT) -> Bool:
     """A tuple as produced by the collector: node is a Constant and the recorded value is that node's value."""
     return isinstance(lit[0], ast.Constant) and lit[2] == lit[0].value
 
@@ -431,22 +435,30 @@ class TryCreateViolation:
     def requires(self, literal_info, context, config):
         return wf_rule(self) and wf_py_lit(literal_info)
 
+    def reveals(self, literal_info, context, config):
+        return (reveal(wf_py_lit, literal_info) and reveal(py_violation, literal_info, context.file_path)
+                and reveal(py_reported, literal_info, context.file_path, context.file_content, config.allowed_numbers,
+                           config.max_small_integer))
+
     def ensures_reported_iff_flagged_and_not_suppressed(self, literal_info, context, config, result):
         return (result is not None) == py_reported(literal_info, context.file_path, context.file_content,
                                                    config.allowed_numbers, config.max_small_integer)
 
     def ensures_violation_on_the_literals_line_naming_its_value(self, literal_info, context, config, result):
-        return implies(result is not None, result == py_violation(RULE_ID, literal_info, context.file_path)
-                       and result.line == literal_info[3] and result.message == magic_message(literal_info[2]))
+        return implies(result is not None, result == py_violation(literal_info, context.file_path)
+                       and result.line == literal_info[3] and result.message == magic_message(literal_info[2])
+                       and result.rule_id == RULE_ID)
 
 
-def collect_py(lits: SeqOf(PyLitT), file_path: OptPath, content: Opt(Str), allowed: SeqOf(Int), max_small: Int) -> SeqOf(ViolationT):
-    """One violation per reported literal, in collection order (the fold performed by _collect_violations)."""
+def collect_py(lits: SeqOf(PyLitT), acc: SeqOf(ViolationT), file_path: OptPath, content: Opt(Str), allowed: SeqOf(Int),
+               max_small: Int) -> SeqOf(ViolationT):
+    """acc followed by one violation per reported literal of lits, in collection order (the fold performed by
+    _collect_violations)."""
     if len(lits) == 0:
-        return []
+        return acc
     if py_reported(lits[0], file_path, content, allowed, max_small):
-        return [py_violation(RULE_ID, lits[0], file_path)] + collect_py(lits[1:], file_path, content, allowed, max_small)
-    return collect_py(lits[1:], file_path, content, allowed, max_small)
+        return collect_py(lits[1:], acc + [py_violation(lits[0], file_path)], file_path, content, allowed, max_small)
+    return collect_py(lits[1:], acc, file_path, content, allowed, max_small)
 
 
 def all_wf_py(lits):
@@ -462,12 +474,43 @@ class CollectViolations:
         return wf_rule(self) and all_wf_py(numeric_literals)
 
     def ensures_one_violation_per_reported_literal(self, numeric_literals, context, config, result):
-        return result == collect_py(numeric_literals, context.file_path, context.file_content, config.allowed_numbers,
+        return result == collect_py(numeric_literals, [], context.file_path, context.file_content, config.allowed_numbers,
                                     config.max_small_integer)
 
-    def inv0(self, numeric_literals, context, config, violations, rest):
-        return all_wf_py(rest) and \
-            collect_py(numeric_literals, context.file_path, context.file_content, config.allowed_numbers,
+    def inv0(self, numeric_literals, context, config, violations, rest, old):
+        return self == old.self and context == old.context and config == old.config and all_wf_py(rest) and \
+            collect_py(numeric_literals, [], context.file_path, context.file_content, config.allowed_numbers,
                        config.max_small_integer) == \
-            violations + collect_py(rest, context.file_path, context.file_content, config.allowed_numbers,
-                                    config.max_small_integer)
+            collect_py(rest, violations, context.file_path, context.file_content, config.allowed_numbers,
+                       config.max_small_integer)
+
+
+# ------------------------------------------------------------------ the delta lemma (property: "adding a value to
+# allowed_numbers removes exactly the violations for literals of that value and removing it adds exactly those")
+def with_allowed(config, allowed):
+    return mk(ConfigT, enabled=config.enabled, allowed_numbers=allowed, max_small_integer=config.max_small_integer,
+              ignore=config.ignore, exempt_definition_files=config.exempt_definition_files)
+
+
+@lemma(props=["C02"], types=dict(rule=RuleT, value=Any, node=PyNode, parent=PyNode, config=ConfigT, context=CtxT, a=Int),
+       name="python-allowed-numbers-delta")
+def py_allowed_delta(rule, value, node, parent, config, context, a):
+    """flag(A + {a}) == flag(A) and value != a, over the CONTRACT of _should_flag_number (integer-valued literals)."""
+    if not (isinstance(node, ast.Constant) and value == node.value and isinstance(value, int)):
+        return True
+    f0 = call(LI + "MagicNumberRule._should_flag_number", rule, value, (node, parent), config, context)
+    f1 = call(LI + "MagicNumberRule._should_flag_number", rule, value, (node, parent),
+              with_allowed(config, config.allowed_numbers + [a]), context)
+    return f1 == (f0 and not (value == a))
+
+
+@lemma(props=["C02"], types=dict(node=PyNode, parent=PyNode, file_path=OptPath, max_small=Int, allowed1=SeqOf(Int),
+                                 allowed2=SeqOf(Int)),
+       name="python-acceptable-context-independent-of-allowed-numbers")
+def py_context_frame(node, parent, file_path, max_small, allowed1, allowed2):
+    """Frame: the verdict of is_acceptable_context does not depend on the allowed_numbers entry of its config dict."""
+    if not isinstance(node, ast.Constant):
+        return True
+    r1 = call(CA + "is_acceptable_context", node, parent, file_path, {"max_small_integer": max_small, "allowed_numbers": allowed1})
+    r2 = call(CA + "is_acceptable_context", node, parent, file_path, {"max_small_integer": max_small, "allowed_numbers": allowed2})
+    return r1 == r2
